@@ -65,7 +65,12 @@ pub fn start_job(command: Arc<Command>) -> (Job, JoinHandle<()>) {
 								}
 								Ok(true) => {
 									trace!(existing=?stop_timer, "erasing stop timer");
-									stop_timer = None;
+									if let Some(timer) = stop_timer.take() {
+										if !timer.is_restart {
+											trace!("raising graceful stop's flag");
+											timer.done.raise();
+										}
+									}
 									trace!(count=%on_end.len(), "raising all pending end flags");
 									for done in take(&mut on_end) {
 										done.raise();
